@@ -277,7 +277,18 @@ def scan_launches(mod, tree, funcs, aliases, ftab):
         outs = kw.get("outputs")
         if ins is None and len(n.args) >= 3:
           ins = n.args[2]
+        if isinstance(ins, ast.Name):
+          # inputs=<name>: the list is built in a local variable of the host function (name = [ ... ])
+          vname, found = ins.id, None
+          for a in ast.walk(fn):
+            if isinstance(a, ast.Assign) and len(a.targets) == 1 and isinstance(a.targets[0], ast.Name) and a.targets[0].id == vname \
+                and isinstance(a.value, (ast.List, ast.Tuple)) and a.lineno < n.lineno:
+              found = a.value
+          if found is not None:
+            ins = found
         ilist = [ast.unparse(x) for x in ins.elts] if isinstance(ins, (ast.List, ast.Tuple)) else None
+        if ilist is None and ins is None and "inputs" not in kw:
+          ilist = []    # a launch with outputs only
         olist = [ast.unparse(x) for x in outs.elts] if isinstance(outs, (ast.List, ast.Tuple)) else []
         kname = None
         if isinstance(kexpr, ast.Name):
